@@ -162,6 +162,24 @@ def r3(ctx):
          'and the closed resurrector keeps reconnecting on every later outage (re-check %s, closed-meanwhile path %s)' % (seen.get('recheck'), seen.get('closed_meanwhile')),
          'after the client is closed no further reconnection attempts are made')
   ctx.ob('C09.R3', f, 'GreenletExit ends the retry loop', bool(seen['exit']) and all(seen['exit']), 'exit paths: %s' % seen['exit'], 'after Close no further attempts are made')
+  # the stock retry policy: x ** e grows only for x > 1 (and e > 1); the first delay must not exceed the cap
+  bld = None
+  for tgt, val in prog.module(R).attr_assigns:
+    if U(tgt) == 'ResurrectorSink.Builder' and isinstance(val, ast.Call):
+      bld = dict((k.arg, k.value) for k in val.keywords)
+  okp = False
+  desc = 'ResurrectorSink.Builder defaults not found'
+  if bld is not None:
+    try:
+      iv = float(prog.const_eval(bld['initial_wait_interval'], prog.module(R)))
+      mx = float(prog.const_eval(bld['max_wait_interval'], prog.module(R)))
+      ex_ = float(prog.const_eval(bld['backoff_exponent'], prog.module(R)))
+      okp = ex_ > 1 and iv > 1 and iv ** ex_ > iv and mx >= iv
+      desc = 'initial_wait_interval=%s, backoff_exponent=%s, max_wait_interval=%s' % (iv, ex_, mx)
+    except Exception:
+      pass
+  ctx.ob('C09.R3', prog.cls(R, 'ResurrectorSink'), 'the stock retry policy grows (initial > 1, exponent > 1) and starts below the cap', okp, desc,
+         'reconnection is retried with growing delays capped at the configured maximum; 1 is a fixed point of x ** e and values below 1 shrink towards a reconnect storm')
   init = prog.func(R, 'ResurrectorSink.__init__')
   t = U(init.node).replace(' ', '')
   ok = all(x in t for x in ('self._initial_wait_interval=sink_properties.initial_wait_interval', 'self._max_wait_interval=sink_properties.max_wait_interval',
